@@ -64,6 +64,28 @@ ENGINES["filec"] = dict(
     branches=["fhammer4", "fhammer6", "fhammer.old-and-new-seen", "fsetup4.ok", "fsetup6.ok", "fq4.listed", "fq6.listed"],
 )
 
+# sys: the driver says which part of the reply differs from the composed model's (DIVERGE dom[sent,header,addr,opts,dest,relay]);
+# a broken correspondence is charged to the properties whose SYS_ theorem speaks about that part
+SYS_PARTS = {"C11": {"sent", "header"}, "C12": {"sent", "header", "relay", "dest"}, "C15": {"dest"}, "C13": {"sent", "opts", "addr"},
+             "C14": {"sent", "opts", "addr"}, "C10": {"addr", "opts"}, "C17": {"opts"}, "C01": set(), "C19": set()}
+
+
+def sys_owner(line, pid, msg):
+    import re as _re
+    m = _re.search(r"dom\[([^\]]*)\]", msg)
+    if not m:
+        return True
+    return bool(set(m.group(1).split(",")) & SYS_PARTS.get(pid, {"sent", "header", "addr", "opts", "dest", "relay"}))
+
+
+ENGINES["sys"] = dict(
+    drv="sys", starts=("sreset",), trivial=r"=> U ; drop$", diverge_owner=sys_owner,
+    branches=["sys.fresh-process", "sys.file-ok", "sys4.request", "sys4.not-bootrequest", "sys4.other-type", "sys4.unparsable", "sys4.drop", "sys4.dropped-by-plugin",
+              "sys4.l2", "sys4.routed", "sys4.pinned", "sys4.unpinned", "sys4.l2-no-interface", "sys4.address-assigned", "sys4.options-added", "sys4.chain-len-4",
+              "sys6.direct", "sys6.relayed", "sys6.supported", "sys6.unsupported", "sys6.drop", "sys6.dropped-after-stub", "sys6.pinned", "sys6.unpinned",
+              "sys6.options-added", "sys6.address-assigned", "sys6.chain-len-4"],
+)
+
 ENGINES["chain"] = dict(drv="chain", starts=("ccfg",), trivial=r"=> drop$", branches=["chain.cfg4.ok", "chain.cfg6.ok", "chain.drop", "chain.send"])
 ENGINES["allocc"] = dict(drv="alloc", starts=("new6", "new4"), trivial=r"$^", branches=["batch"], noshrink=True)
 ENGINES["rangec"] = dict(drv="range", starts=("rsetup",), trivial=r"$^", branches=["batch"], noshrink=True)
@@ -93,9 +115,9 @@ TB_PLUG = "insomniacslk/dhcp option encoders/decoders: mirrored in Lean (enc*/de
 
 PROPS = {
     "C14": dict(
-        engines=[("plug", 4000, 60000)],
-        theorems=["C14_v6", "C14_v6_matrix", "C14_v6_matrix_all", "C14_v6_duid_of_setup", "C14_v4", "C14_v4_addr_of_setup"],
-        modules=["CoreDhcp.Props.C14"],
+        engines=[("plug", 4000, 60000), ("sys", 1500, 30000)],
+        theorems=["C14_v6", "C14_v6_matrix", "C14_v6_matrix_all", "C14_v6_duid_of_setup", "C14_v4", "C14_v4_addr_of_setup", "SYS_C14_drop4", "SYS_C14_drop6"],
+        modules=["CoreDhcp.Props.C14", "CoreDhcp.Props.System"],
         trusted_base=[TB_PLUG],
         assumptions=["the response handed to server_id carries at most one Server-ID option (true of every chain of built-in plugins)", "strings.ToLower of the DUID type is modelled for ASCII"],
     ),
@@ -150,9 +172,9 @@ PROPS = {
                      "concurrent batches are judged by searching a one-at-a-time order under which the Lean model accepts every outcome (linearisability check against the model)"],
     ),
     "C10": dict(
-        engines=[("file", 1500, 20000), ("filec", 40, 250)],
-        theorems=["C10_holds", "C10_accept_iff_wellformed", "C10_mapping_is_file", "C10_all_or_nothing", "C10_own_file", "C10_D8_prefix_refuted"],
-        modules=["CoreDhcp.Props.C10"],
+        engines=[("file", 1500, 20000), ("filec", 40, 250), ("sys", 1500, 30000)],
+        theorems=["C10_holds", "C10_accept_iff_wellformed", "C10_mapping_is_file", "C10_all_or_nothing", "C10_own_file", "C10_D8_prefix_refuted", "SYS_file_address4", "SYS_file_address4_cfg", "SYS_file_stops4"],
+        modules=["CoreDhcp.Props.C10", "CoreDhcp.Props.System"],
         trusted_base=["bytes.Split / strings.Fields / net.ParseMAC / net.ParseIP: each line reaches the model as the fields the code sees with the parsers' answers", "fsnotify delivery ('eventually') is runtime: the harness rewrites the file and waits (bounded) for the served table to be replaced", "dhcpv6.ExtractMAC"],
         assumptions=["a refresh is one atomic table swap (recLock held by defer in loadFromFile; readers hold RLock)"],
     ),
@@ -173,33 +195,33 @@ PROPS = {
         assumptions=["'no prefix hint at all' = no IAPrefix option or only IAPrefix options of prefix-length 0; a length-only hint (::/n, n>0) is a hint", "leases are never expired or freed by the plugin (as in the code)"],
     ),
     "C11": dict(
-        engines=[("dispatch4", 6000, 100000)],
-        theorems=["C11_holds", "C11_never_answers_non_requests"],
-        modules=["CoreDhcp.Props.C11"],
+        engines=[("dispatch4", 6000, 100000), ("sys", 1500, 30000)],
+        theorems=["C11_holds", "C11_never_answers_non_requests", "SYS_C11", "SYS_frame4"],
+        modules=["CoreDhcp.Props.C11", "CoreDhcp.Props.System"],
         trusted_base=[TB_CODEC, TB_HOOK],
-        assumptions=["handlers preserve the echoed fields and keep the reply type within OFFER-for-DISCOVER / ACK-or-NAK-for-REQUEST (Handler4.Preserving): true of the scripted handlers of the run; proved per built-in plugin model under C17",
+        assumptions=["C11_holds: handlers preserve the echoed fields and keep the reply type (Handler4.Preserving): true of the scripted handlers of the run. SYS_C11 has no such hypothesis: it is about every chain of built-in option plugins, server_id and file (composed model, tied by the sys engine); range is not an element of the composed model",
                      "'every byte string' is 'every parse result, or parse failure': the byte parser is the library's"],
     ),
     "C12": dict(
-        engines=[("dispatch6", 6000, 100000)],
-        theorems=["C12_holds", "C12_mirror"],
-        modules=["CoreDhcp.Props.C12"],
+        engines=[("dispatch6", 6000, 100000), ("sys", 1500, 30000)],
+        theorems=["C12_holds", "C12_mirror", "SYS_C12"],
+        modules=["CoreDhcp.Props.C12", "CoreDhcp.Props.System"],
         trusted_base=[TB_CODEC, TB_HOOK],
-        assumptions=["handlers return DHCPv6 messages (not relay messages) and keep type, transaction id, client id and rapid commit (Handler6.Preserving)"],
+        assumptions=["C12_holds: handlers return DHCPv6 messages (not relay messages) and keep type, transaction id, client id and rapid commit (Handler6.Preserving). SYS_C12 has no such hypothesis: every chain of built-in option plugins, server_id and file (composed model, tied by the sys engine); prefix is not an element of the composed model"],
     ),
     "C13": dict(
-        engines=[("dispatch4", 4000, 60000), ("dispatch6", 4000, 60000), ("plugins", 3000, 50000)],
-        theorems=["C13_order", "C13_stop", "C13_sends_last4", "C13_sends_last6", "C13_load_exact", "C13_load_aborts", "C13_load_succeeds"],
-        modules=["CoreDhcp.Props.C13"],
+        engines=[("dispatch4", 4000, 60000), ("dispatch6", 4000, 60000), ("plugins", 3000, 50000), ("sys", 1500, 30000)],
+        theorems=["C13_order", "C13_stop", "C13_sends_last4", "C13_sends_last6", "C13_load_exact", "C13_load_aborts", "C13_load_succeeds", "SYS_file_stops4"],
+        modules=["CoreDhcp.Props.C13", "CoreDhcp.Props.System"],
         facts=["F3", "F7", "F9"],
         trusted_base=[TB_CODEC, TB_HOOK],
         assumptions=["'built-in handlers return nil only with stop' is checked syntactically on the source (fact F3) and per plugin model",
                      "every listener of a protocol is given the one chain LoadPlugins returned (fact F7)"],
     ),
     "C15": dict(
-        engines=[("dispatch4", 6000, 100000)],
-        theorems=["C15_holds", "C15_has_interface"],
-        modules=["CoreDhcp.Props.C15"],
+        engines=[("dispatch4", 6000, 100000), ("sys", 1500, 30000)],
+        theorems=["C15_holds", "C15_has_interface", "SYS_C15"],
+        modules=["CoreDhcp.Props.C15", "CoreDhcp.Props.System"],
         facts=["F5", "F6", "F8"],
         trusted_base=[TB_CODEC, TB_HOOK, "the kernel delivers IP_PKTINFO when asked (fact F5 checks that listen4 asks exactly when unbound); the link-level send itself (sendEthernet) is not modelled"],
         assumptions=["the listener is bound to an interface or the kernel reported the receiving one; the excluded point (link-level reply with no interface information) dereferences a nil control message in the code and is `panicNoIf` in the model"],
@@ -278,6 +300,7 @@ RULES = {
     "plugins": "configurations over synthetic registered plugins (dual, v4-only, v6-only, unsupported, unknown names, failing / nil-returning setups); trivial = both protocols unconfigured",
     "plug": "per built-in plugin: argument vectors from valid, boundary and invalid values of each argument kind and wrong arity, each set up in a fresh process, followed by 6..15 requests (all request-list shapes incl. absent and empty, option 116/54/siaddr/server-id variants, OFFER/ACK/NAK, assigned/unassigned yiaddr, pre-existing options); trivial = a rejected configuration",
     "config": "YAML documents from the configuration grammar (sections present or not, listen scalar/list/absent/non-scalar, every address/zone/port spelling, interface alias, plugin item shapes) plus mutated text; trivial = unreadable document",
+    "sys": "chains of 0..7 distinct real built-in plugins (option plugins, server_id, file) in any order, arguments from the plug engine's valid/boundary/invalid pools (a rejected set-up leaves the chain shorter), fresh process per chain; 8..27 datagrams each from the plug engine's request battery (request-list shapes, siaddr x option 54 matrix) plus giaddr/ciaddr/broadcast/option 82/61 variants (v4) or all message types, client-id kinds, server-id own/other, ORO shapes, IA_NA, rapid commit, relay nesting with Relay-Reply layers (v6), one in six mutated; the whole reply (every header field and option, destination, port, interface, link-layer flag) is compared with the composed model; trivial = unparsable datagram",
     "chain": "random subsets and orders of the real built-in plugins with valid arguments (fresh process per chain), 10..40 well-formed and mutated datagrams each; trivial = dropped datagram",
     "filec": "static lease file under autorefresh, both protocols: 8 goroutines looking one client up as fast as they can while the file is rewritten in place over and over, alternately with two versions that differ in one byte (150 ms per burst, 600 ms in the thorough tier); every answer must be the old or the new file's, all lookups must return, the table must settle on the last version",
     "allocc": "k goroutines allocating / freeing at once on nearly full pools; outcomes judged by linearisability search",
